@@ -858,6 +858,8 @@ class Engine:
             return Bool(self.cond(e.args[0], st))
         if name == 'len' and len(e.args) == 1:
             a = self.ev(e.args[0], st)
+            if a.kind == 'opt':
+                a = a.a['inner']          # len(None) raises; the code under contract guards it (`if x is not None`)
             if a.kind == 'list':
                 return Int(a.a['length'])
             if a.kind == 'str':
